@@ -10,6 +10,6 @@ for P in "$@"; do
   echo "== $P rc=$RC $(echo "$OUT" | grep -c '^VIOLATION') violation lines"
   echo "$OUT" | grep -E "new-signature|BUILD-FAILED|BROKEN" | head -8
 done
-git checkout -- . ; git status --short | head -3
+git reset -q --hard HEAD; git status --short | head -3
 # rebuild harness against the restored tree so later runs are not stale
 /verif/scripts/build.sh >/dev/null 2>&1
